@@ -194,6 +194,8 @@ class alloc_tracker {
   }
   std::size_t bytes_live() { const std::lock_guard<std::mutex> g{m}; return live_bytes; }
   std::size_t blocks_live() { const std::lock_guard<std::mutex> g{m}; return live.size(); }
+  // blocks allocated inside a scoped_ignore and not freed yet (scratch memory of a call must be gone when it returns)
+  std::size_t ignored_live() { const std::lock_guard<std::mutex> g{m}; return ignored.size(); }
   std::unordered_map<void*, std::size_t> snapshot() { const std::lock_guard<std::mutex> g{m}; return live; }
   bool is_live(void* p) { const std::lock_guard<std::mutex> g{m}; return live.count(p) != 0; }
   // the live block containing address a, or nullptr
